@@ -22,7 +22,7 @@ RULE = (
     'the object reports; subset / state-consistency / monotonicity for stricter settings.  Non-trivial = the '
     'history has at least one default jump; distinct = SHA-1 of (states, inner, inner fraction).'
 )
-RULE += ' Added in rounds 6-10: the settings are queried in shuffled order on the same object; the same history with a chronological (instead of grouped-by-atom) event table must give the same jumps; framework atoms listed before / between the diffusing atoms.'
+RULE += ' Added in rounds 6-10: the settings are queried in shuffled order on the same object; the same history with a chronological (instead of grouped-by-atom) event table must give the same jumps; framework atoms listed before / between the diffusing atoms. Round 13: the re-presented event table also with its named columns in another order.'
 ASSUMPTIONS = [
     "ValueError('No jumps found') is the API's encoding of the empty jump set (accepted iff allowed by the model)",
     'site states reported by Transitions are taken as given (their geometric correctness is C02)',
@@ -239,7 +239,11 @@ def run_unit(unit, rng, ctx):
         ev2 = ev.sort_values(['time', 'atom index'], kind='stable') if how != 'shuffled' else ev.sample(frac=1.0, random_state=int(rng.integers(2**31)))
         if how == 'by_time_fresh_labels':
             ev2 = ev2.reset_index(drop=True)
-        if how != 'shuffled':
+        if rng.integers(2):
+            # the same named columns in another order (set_index / reset_index, a hand-built table): columns are named
+            ev2 = ev2[[str(c_) for c_ in rng.permutation(list(ev2.columns))]]
+            how += '+columns_permuted'
+        if not how.startswith('shuffled'):
             tr2 = Transitions(trajectory=tr.trajectory, diff_trajectory=tr.diff_trajectory, sites=tr.sites, events=ev2, states=np.asarray(tr.states).copy(), inner_states=np.asarray(tr.inner_states).copy())
             for r_ in res:
                 a_, b_ = get_jumps(tr, r_, ctx, 'reference'), get_jumps(tr2, r_, ctx, f'rand {sys_.kind} T={T} f={f} [event table {how}]')
